@@ -43,7 +43,7 @@ def _spec(draw):
         pairs = st.tuples(st.integers(0, npd - 1), st.integers(0, base['n_dim'] - 1)).map(list)
         sel = draw(st.lists(pairs, min_size=1, max_size=5))
     pop = dict(kind='cov', base=base, n_cov=n_cov, sel=sel)
-    cov = popgen.draw_cov_matrix(draw, n_ids, n_cov)
+    cov = popgen.draw_cov_matrix(draw, n_ids, n_cov, units=True)
     theta = popgen.draw_theta(draw, pop, n_ids, cov)
     z = draw(gen.mat(gen.real(-3, 3), n_ids, base['n_dim']))
     U = draw(gen.mat(gen.real(-3, 3), n_ids, base['n_dim'])) if gen.chance(draw, 0.5) else None
